@@ -4,7 +4,7 @@ import itertools
 import numpy as np
 from hypothesis import strategies as st
 
-from vlib import chaingen, gens, mfgen, sysgen, tempogen
+from vlib import ancgen, chaingen, gens, mfgen, sysgen, tempogen
 from vlib.runner import HarnessError, Outcome, Sub
 
 ID = "C14"
@@ -12,8 +12,8 @@ LEVEL = "exploration"
 RULE = ("Call histories as generated operation lists (model-based testing; the whole list shrinks as one value) plus the "
         "COMPLETE enumeration of all compute-target sequences of length <= 3 over targets 0..5 (258 histories) for Tempo "
         "(quick) and for MeanFieldTempo and PtTebd (thorough). Objects: Tempo (dkmax=2 so continuation crosses the memory "
-        "boundary, or full memory; time-dependent system), MeanFieldTempo, PtTebd (targets in steps; restart from "
-        "get_augmented_mps()+start_step), PtTempo (compute / get_process_tensor in any order and multiplicity), GibbsTempo "
+        "boundary, or full memory; time-dependent system), MeanFieldTempo, PtTebd (targets in steps; 0-3 generated single-site chain controls on any step/site/side; restart from "
+        "get_augmented_mps()+start_step at any step 0..4, also with controls on the restart step), PtTempo (compute / get_process_tensor in any order and multiplicity), GibbsTempo "
         "(compute / get_state / get_dynamics). Operations: compute(target) in any order (increasing, repeated, decreasing), "
         "getters, and 'arm a transient fault' (the wrapped user callable - Hamiltonian, rate, Lindblad operator, field "
         "equation - raises at its k-th evaluation, once). Invariant after every operation: the dynamics are a prefix of the "
@@ -287,8 +287,11 @@ def s_tebd(draw, tier):
     n = draw(st.integers(2, 3))
     chain = {"family": "generic", "dims": [2] * n, "sites": (ch["sites"] + ch2["sites"])[:n],
              "nn": (ch["nn"] + ch2["nn"])[:n - 1], "pts": (ch["pts"] + ch2["pts"])[:n], "rhos": (ch["rhos"] + ch2["rhos"])[:n]}
+    controls = draw(st.lists(st.fixed_dictionaries({
+        "site": st.integers(0, n - 1), "step": st.integers(0, NMAX), "post": st.booleans(),
+        "op": ancgen.control_op_spec(2, invertible=True)}), max_size=3))
     return {"chain": chain, "order": draw(st.sampled_from([1, 2])), "ops": draw(s_ops([], max_len=6)),
-            "restart": draw(st.one_of(st.none(), st.integers(1, NMAX - 1)))}
+            "restart": draw(st.one_of(st.none(), st.integers(0, NMAX - 1))), "controls": controls}
 
 
 def run_tebd(case):
@@ -307,8 +310,14 @@ def run_tebd(case):
     rhos = chaingen.initial_states(spec)
     par = oqupy.PtTebdParameters(dt=dt, epsrel=1e-10, order=case["order"])
     sites = list(range(n)) + [(0, n - 1)]
-    mk = lambda mps=None, st_=t0, ss=0: oqupy.PtTebd(mps or oqupy.AugmentedMPS(rhos), chain, pts, par, start_time=st_,
-                                                      start_step=ss, dynamics_sites=sites)
+    cc = None
+    if case.get("controls"):
+        cc = oqupy.ChainControl([2] * n)
+        for c in case["controls"]:
+            cc.add_single_site_control(ancgen.build_control_op(c["op"], 2), int(c["site"]) % n, int(c["step"]), post=c["post"])
+        out.label("chain-controls")
+    mk = lambda mps=None, st_=t0, ss=0: oqupy.PtTebd(mps or oqupy.AugmentedMPS(rhos), chain, pts, par, chain_control=cc,
+                                                      start_time=st_, start_step=ss, dynamics_sites=sites)
     ref = mk().compute(NMAX, progress_type="silent")
     pack = lambda r: np.concatenate([np.array(r["dynamics"][s].states).reshape(len(r["time"]), -1) for s in sites] +
                                     [np.array(r["norm"]).reshape(-1, 1)], axis=1)
@@ -341,15 +350,24 @@ def run_tebd(case):
             out.fail("pt-tebd/length", f"op {i}: {len(r['time'])} points after targets up to {reached}")
             return out
     k = case.get("restart")
-    if k:
-        out.label("restart")
+    if k is not None:
+        out.label("restart", "restart-at-0" if k == 0 else "restart-later")
+        # finding F-14e: initialize() applies the pre-measurement controls of the start step, which the exported state of
+        # that step already contains - only such inputs carry the known-finding signature
+        pre_here = any((not c["post"]) and c["step"] == k and c["op"]["kind"] != "identity" for c in case.get("controls") or [])
+        post_here = any(c["post"] and c["step"] == k for c in case.get("controls") or [])
+        if pre_here:
+            out.label("pre-control-on-restart-step")
+        if post_here:
+            out.label("post-control-on-restart-step")
         out.nontrivial = True
         a = mk()
         a.compute(k, progress_type="silent")
         b = mk(a.get_augmented_mps(), t0 + k * dt, k)
         rb = b.compute(NMAX, progress_type="silent")
         out.check_close("pt-tebd/restart/times", np.array(rb["time"]), rt[k:], 1e-12)
-        out.check_close("pt-tebd/restart/states", pack(rb), rs[k:], STATE_TOL, f"restart at step {k}")
+        out.check_close("pt-tebd/restart/states" + (":pre-control-on-restart-step" if pre_here else ""), pack(rb), rs[k:],
+                        STATE_TOL * max(1.0, float(np.abs(rs).max())), f"restart at step {k}")
     return out
 
 
